@@ -1353,3 +1353,82 @@ def s_vault_get(I, st, args, kwargs):
     d = _psym()
     ns = args[0]
     return VOpt(z3.Not(d['VAULT_KNOWN'](ns.t)), VOpaque('PresetDict', d['VAULT_GET'](ns.t)))
+
+
+# ----------------------------------------------------------------------------- line parsing over opaque strings (C16)
+def _lsym():
+    """join / rstrip / csv over opaque strings, with the string-library laws the parser contracts rely on."""
+    d = _psym()
+    if 'JOIN' not in d:
+        from . import sym as _sym
+        from . import speclib as sp
+        P = d['P']
+        AP = z3.ArraySort(z3.IntSort(), P)
+        REC = sort_of(('list', 'pstr'))
+        d.update(JOIN=z3.Function('pstr_join', P, z3.IntSort(), AP, P), RSTRIP=z3.Function('pstr_rstrip', P, P, P),
+                 STRIP=z3.Function('pstr_strip', P, P), CSVREC=z3.Function('csv_first_record', P, REC))
+        sep, p = z3.Const('l_sep', P), z3.Const('l_p', P)
+        n, i = z3.Int('l_n'), z3.Int('l_i')
+        A = z3.Const('l_A', AP)
+        nl, cr, crnl = _sym.pstr_lit('\n'), _sym.pstr_lit('\r'), _sym.pstr_lit('\r\n')
+        C = _sym.PCONTAINS
+        J = d['JOIN'](sep, n, A)
+        clean = z3.ForAll([i], z3.Implies(z3.And(i >= 0, i < n), z3.Not(C(A[i], sep))))
+        # str law: splitting a join of separator-free fields gives the fields back (an empty field stays a field)
+        sp.axiom('str.split_join', z3.ForAll([sep, n, A], z3.Implies(z3.And(n >= 1, clean), z3.And(
+            d['SPLIT_COUNT'](J, sep) == n,
+            z3.ForAll([i], z3.Implies(z3.And(i >= 0, i < n), d['SPLIT_PART'](J, sep, i) == A[i])))), patterns=[J]), 'pstr_join')
+        nonl = z3.ForAll([i], z3.Implies(z3.And(i >= 0, i < n), z3.And(z3.Not(C(A[i], nl)), z3.Not(C(A[i], cr)))))
+        sp.axiom('str.join_no_newline', z3.ForAll([sep, n, A], z3.Implies(
+            z3.And(n >= 1, nonl, z3.Not(C(sep, nl)), z3.Not(C(sep, cr))), z3.And(z3.Not(C(J, nl)), z3.Not(C(J, cr)))), patterns=[J]),
+            'pstr_join')
+        # str law: rstrip('\r\n') of p + '\n' (or p + '\r\n', or p itself) is p when p contains no line-break character
+        for tail, nm in ((nl, 'nl'), (crnl, 'crnl')):
+            sp.axiom('str.rstrip_' + nm, z3.ForAll([p], z3.Implies(
+                z3.And(z3.Not(C(p, nl)), z3.Not(C(p, cr))), d['RSTRIP'](_sym.PCONCAT(p, tail), crnl) == p),
+                patterns=[d['RSTRIP'](_sym.PCONCAT(p, tail), crnl)]), 'pstr_rstrip')
+        sp.axiom('str.concat_empty', z3.ForAll([p], _sym.PCONCAT(p, _sym.pstr_lit('')) == p,
+                                               patterns=[_sym.PCONCAT(p, _sym.pstr_lit(''))]), 'pstr_concat')
+        sp.axiom('str.rstrip_none', z3.ForAll([p], z3.Implies(
+            z3.And(z3.Not(C(p, nl)), z3.Not(C(p, cr))), d['RSTRIP'](p, crnl) == p), patterns=[d['RSTRIP'](p, crnl)]), 'pstr_rstrip')
+    return d
+
+
+def m_pstr_rstrip(I, st, s, chars=None):
+    d = _lsym()
+    if chars is None:
+        raise EngineError('rstrip() without an argument')
+    return VStr(d['RSTRIP'](s.t, chars.t))
+
+
+def m_pstr_strip(I, st, s, chars=None):
+    d = _lsym()
+    if chars is not None:
+        raise EngineError('strip(chars)')
+    return VStr(d['STRIP'](s.t))
+
+
+_METHODS[(VStr, 'rstrip')] = m_pstr_rstrip
+_METHODS[(VStr, 'strip')] = m_pstr_strip
+
+
+@stub('csv.reader')
+def s_csv_reader(I, st, args, kwargs):
+    """csv.reader(lines): one record (list of fields) per line, per the csv module's default dialect (trusted)."""
+    d = _lsym()
+    lines = args[0]
+    i = z3.Int(fresh_name('i'))
+    ek = ('list', 'pstr')
+    return VSeq(ek, lines.length, z3.Lambda([i], d['CSVREC'](lines.arr[i])), flavor='tuple')
+
+
+def m_list_pop(I, st, s, *a):
+    if a:
+        raise EngineError('list.pop(i)')
+    I.oblige(st, 'nonempty[pop]', s.length > 0)
+    v = from_term(s.arr[s.length - 1], s.ek)
+    s.length = s.length - 1
+    return v
+
+
+_METHODS[(VSeq, 'pop')] = m_list_pop
